@@ -1218,3 +1218,170 @@ T('h4_ctx_update_unset_only', ['C15'],
 T('h4_ctx_update_under_switch', ['C15'],
   (CTX, "            desired_args = self.required + list(self.defaults.keys())\n",
         "            if self.overwrite:\n                context.update({})\n            desired_args = self.required + list(self.defaults.keys())\n"))
+
+
+# ================================================================================================ fifth pass (refactoring round w)
+# ---- a private read-only property for a derived value: read through its return expression (front-end: the property becomes a
+#      private helper method, which the inliner dissolves) --------------------------------------------------------------------
+_ST_TC_PROP = "    @property\n    def total_count(self):\n        return self._total_count\n"
+_ST_ADD_TEST = "        if len(self._data) < self._cap:\n"
+_ST_RESIZE_TEST = "        if new_size >= len(self._data):\n"
+
+
+def _size_prop(ret='len(self._data)', doc=''):
+    return (STATS, _ST_TC_PROP, _ST_TC_PROP + "\n    @property\n    def _data_count(self):\n" + doc + "        return " + ret + "\n")
+
+
+T('h5_store_size_private_property', ['C19'], _size_prop(),
+  (STATS, _ST_ADD_TEST, "        if self._data_count < self._cap:\n"), (STATS, _ST_RESIZE_TEST, "        if new_size >= self._data_count:\n"))
+T('h5_store_size_private_property_named_and_documented', ['C19'], _size_prop(doc='        """number of retained samples"""\n'),
+  (STATS, _ST_ADD_TEST, "        size = self._data_count\n        if size < self._cap:\n"),
+  (STATS, _ST_RESIZE_TEST, "        if not (new_size < self._data_count):\n"))
+B('h5_store_size_property_off_by_one', ['C19'], 'R19.c', _size_prop(ret='len(self._data) - 1'),
+  (STATS, _ST_ADD_TEST, "        if self._data_count < self._cap:\n"), (STATS, _ST_RESIZE_TEST, "        if new_size >= self._data_count:\n"))
+B('h5_store_size_property_not_the_size', ['C19'], 'R19.c', _size_prop(ret='self._cap - 1'),
+  (STATS, _ST_ADD_TEST, "        if self._data_count < self._cap:\n"))
+B('h5_store_size_property_in_resize_only_wrong', ['C19'], 'R19.c', _size_prop(ret='len(self._data) // 2'),
+  (STATS, _ST_RESIZE_TEST, "        if new_size >= self._data_count:\n"))
+
+# ---- the report assembled by a private helper that takes the middleware (dissolved into both endpoints): the report statements of
+#      the report-and-reset endpoint are then the reads of the table themselves ----------------------------------------------------
+_ST_GSD_HEAD = "    stats_mw = _get_stats_mw(_application)\n    rt_hits = stats_mw.route_hits\n"
+_ST_GAR = ("def get_and_reset_stats_dict(_application):\n    ret = get_stats_dict(_application)\n    stats_mw = _get_stats_mw(_application)\n"
+           "    stats_mw.reset()\n    ret['reset'] = True\n    return ret\n")
+_ST_BUILD = (STATS, _ST_GSD_HEAD, "    return _build_stats_dict(_get_stats_mw(_application))\n\n\ndef _build_stats_dict(stats_mw):\n    rt_hits = stats_mw.route_hits\n")
+
+
+def _gar(body):
+    return (STATS, _ST_GAR, "def get_and_reset_stats_dict(_application):\n" + body)
+
+
+T('h5_report_built_by_helper_taking_the_middleware', ['C19', 'C15'], _ST_BUILD,
+  _gar("    stats_mw = _get_stats_mw(_application)\n    ret = _build_stats_dict(stats_mw)\n    stats_mw.reset()\n    ret['reset'] = True\n    return ret\n"))
+T('h5_report_built_by_helper_then_copied', ['C19'], _ST_BUILD,
+  _gar("    stats_mw = _get_stats_mw(_application)\n    report = _build_stats_dict(stats_mw)\n    stats_mw.reset()\n    return dict(report, reset=True)\n"))
+T('h5_report_filled_by_a_loop_over_the_table', ['C19'],
+  _gar("    stats_mw = _get_stats_mw(_application)\n    route_stats = {}\n    for rt, rh in stats_mw.route_hits.items():\n        if rh:\n"
+       "            route_stats[rt.pattern] = _get_route_stats(rh)\n"
+       "    ret = {'route_stats': route_stats, 'start_time_utc': stats_mw.last_reset.isoformat(),\n           'cur_time_utc': datetime.datetime.utcnow().isoformat()}\n"
+       "    stats_mw.reset()\n    ret['reset'] = True\n    return ret\n"))
+B('h5_report_helper_runs_after_reset', ['C19'], 'R19.b', _ST_BUILD,
+  _gar("    stats_mw = _get_stats_mw(_application)\n    stats_mw.reset()\n    ret = _build_stats_dict(stats_mw)\n    ret['reset'] = True\n    return ret\n"))
+B('h5_report_helper_table_read_before_rest_after_reset', ['C19'], 'R19.b', _ST_BUILD,
+  _gar("    stats_mw = _get_stats_mw(_application)\n    ret = _build_stats_dict(stats_mw)\n    stats_mw.reset()\n"
+       "    ret = _build_stats_dict(stats_mw)\n    ret['reset'] = True\n    return ret\n"))
+B('h5_report_helper_result_dropped', ['C19'], 'R19.b', _ST_BUILD,
+  _gar("    stats_mw = _get_stats_mw(_application)\n    report = _build_stats_dict(stats_mw)\n    stats_mw.reset()\n    ret = {'reset': True}\n    return ret\n"))
+B('h5_report_loop_runs_after_reset', ['C19'], 'R19.b',
+  _gar("    stats_mw = _get_stats_mw(_application)\n    route_stats = {}\n    stats_mw.reset()\n    for rt, rh in stats_mw.route_hits.items():\n        if rh:\n"
+       "            route_stats[rt.pattern] = _get_route_stats(rh)\n"
+       "    ret = {'route_stats': route_stats, 'start_time_utc': stats_mw.last_reset.isoformat(),\n           'cur_time_utc': datetime.datetime.utcnow().isoformat()}\n"
+       "    ret['reset'] = True\n    return ret\n"))
+
+# ---- the record type of a hit: declared field order read from a typing.NamedTuple class / a dataclass / a plain class ----------
+_ST_HIT = "Hit = namedtuple('Hit', 'start_time url pattern status_code '\n                 ' duration content_type')\n"
+_ST_IMP = "from collections import namedtuple, defaultdict\n"
+
+
+def _hit_cls(head, order=('start_time: float', 'url: str', 'pattern: str', 'status_code: str', 'duration: float', 'content_type: str')):
+    return (STATS, _ST_HIT, head + ''.join('    %s\n' % f for f in order))
+
+
+_SWAPPED = ('start_time: float', 'pattern: str', 'url: str', 'status_code: str', 'duration: float', 'content_type: str')
+T('h5_hit_typing_namedtuple', ['C19'], (STATS, _ST_IMP, "from typing import NamedTuple\n" + _ST_IMP), _hit_cls("class Hit(NamedTuple):\n"))
+T('h5_hit_typing_namedtuple_qualified', ['C19'], (STATS, _ST_IMP, "import typing\n" + _ST_IMP), _hit_cls("class Hit(typing.NamedTuple):\n"))
+T('h5_hit_dataclass', ['C19'], (STATS, _ST_IMP, "from dataclasses import dataclass\n" + _ST_IMP), _hit_cls("@dataclass(frozen=True)\nclass Hit(object):\n"))
+B('h5_hit_typing_namedtuple_fields_swapped', ['C19'], 'R19.a', (STATS, _ST_IMP, "from typing import NamedTuple\n" + _ST_IMP),
+  _hit_cls("class Hit(NamedTuple):\n", _SWAPPED))
+B('h5_hit_dataclass_fields_swapped', ['C19'], 'R19.a', (STATS, _ST_IMP, "from dataclasses import dataclass\n" + _ST_IMP),
+  _hit_cls("@dataclass\nclass Hit(object):\n", _SWAPPED))
+T('h5_hit_plain_class', ['C19'],
+  (STATS, _ST_HIT, "class Hit(object):\n    def __init__(self, start_time, url, pattern, status_code, duration, content_type):\n        self.start_time = start_time\n"
+                   "        self.url = url\n        self.pattern = pattern\n        self.status_code = status_code\n        self.duration = duration\n"
+                   "        self.content_type = content_type\n"))
+B('h5_hit_plain_class_parameters_swapped', ['C19'], 'R19.a',
+  (STATS, _ST_HIT, "class Hit(object):\n    def __init__(self, start_time, pattern, url, status_code, duration, content_type):\n        self.start_time = start_time\n"
+                   "        self.url = url\n        self.pattern = pattern\n        self.status_code = status_code\n        self.duration = duration\n"
+                   "        self.content_type = content_type\n"))
+T('h5_zero_argument_super', ['C19'], (STATS, "        super(RouteStatReservoir, self).add(hit)\n", "        super().add(hit)\n"),
+  (STATS, "        super(RouteStatReservoir, self).__init__()\n", "        super().__init__()\n"))
+
+# ---- the sample store moved (verbatim) into another module of the package and imported back: its methods are judged where they
+#      live, the writers of its state are its own methods by identity -----------------------------------------------------------------
+_RESERVOIR_SRC = '''
+
+import random
+
+
+def fast_randint(start, stop):
+    return (start + int(random.random() * (stop + 1 - start)))
+
+
+class Reservoir(object):
+    def __init__(self, cap=True, data=None, container=None):
+        if cap is True:
+            self._cap = 2 ** 14  # 16k
+        elif cap is False:
+            self._cap = float('inf')
+        else:
+            self._cap = int(cap)
+        if container is None:
+            container = []
+        self._data = container
+        self._total_count = len(container)
+        assert self._total_count < self._cap, 'initial count %r must be lower than cap %r' % (self._total_count, self._cap)
+
+        for val in (data or []):
+            self.add(val)
+        return
+
+    @property
+    def total_count(self):
+        return self._total_count
+
+    def add(self, val):
+        self._total_count += 1
+        if len(self._data) < self._cap:
+            self._data.append(val)
+            return
+
+        idx = fast_randint(0, self._total_count)
+        if idx < self._cap:
+            self._data[idx] = val
+        return
+
+    def __iter__(self):
+        return iter(self._data)
+
+    def to_list(self):
+        return list(self)
+
+    def resize(self, new_size):
+        self._cap = new_size
+        if new_size >= len(self._data):
+            return
+        self._data = self._data[:new_size]
+
+    def __repr__(self):
+        cn = self.__class__.__name__
+        return ('<%s cap=%r, data_count=%r, total_count=%r>'
+                % (cn, self._cap, len(self._data), self._total_count))
+'''
+
+
+def _moved_store(src=_RESERVOIR_SRC):
+    return [(STATS, r're:(?s)\ndef fast_randint\(start, stop\):.*?\n(?=Hit = namedtuple)', '\n'),
+            (STATS, "from .core import Middleware\n", "from .core import Middleware, fast_randint, Reservoir\n"),
+            (C, r're:\Z', src)]
+
+
+T('h5_store_moved_to_another_module', ['C19', 'C15'], *_moved_store())
+B('h5_store_moved_and_index_bound_loosened', ['C19'], 'R19.c', *_moved_store(_RESERVOIR_SRC.replace("        if idx < self._cap:\n", "        if idx <= self._cap:\n")))
+B('h5_store_moved_and_appends_twice', ['C19'], 'R19.c',
+  *_moved_store(_RESERVOIR_SRC.replace("            self._data.append(val)\n            return\n", "            self._data.append(val)\n            self._data.append(val)\n            return\n")))
+B('h5_store_moved_and_resize_keeps_everything', ['C19'], 'R19.c',
+  *_moved_store(_RESERVOIR_SRC.replace("        self._data = self._data[:new_size]\n", "        self._data = self._data[:]\n")))
+B('h5_store_moved_and_subclass_writes_the_capacity', ['C19'], 'R19.c',
+  *(_moved_store() + [(STATS, "        self.last_hit = hit.start_time\n", "        self.last_hit = hit.start_time\n        self._cap += 1\n")]))
+B('h5_store_moved_and_count_reset_by_resize', ['C19'], 'R19.c',
+  *_moved_store(_RESERVOIR_SRC.replace("        self._cap = new_size\n", "        self._cap = new_size\n        self._total_count = 0\n")))
